@@ -128,6 +128,21 @@ theorem decode_total (ts : List FieldTy) (payload : Bytes) :
     obtain ⟨vs, unread⟩ := p
     exact ⟨decodeFields_count ts payload vs unread h, decodeFields_split ts payload vs unread h⟩
 
+/-- **every decode error of a synchronous handler becomes a protocol error** — the dispatch of a handler that
+    decodes with getters has exactly two outcomes: the payload decoded (and then `payload = consumed ++ unread`),
+    or the connection is closed with `ProtocolError`; nothing else can come out of the decoding. -/
+theorem decode_error_closes_cleanly (ts : List FieldTy) (payload : Bytes) :
+    (syncDispatch ts payload = .carriesOn ∧ ∃ vs unread consumed, decodeFields ts payload = .ok (vs, unread) ∧
+        payload = consumed ++ unread) ∨
+    (syncDispatch ts payload = .closeProtocolError ∧ ∃ e, decodeFields ts payload = .error e) := by
+  unfold syncDispatch
+  cases h : decodeFields ts payload with
+  | error e => right; exact ⟨rfl, e, rfl⟩
+  | ok p =>
+    obtain ⟨vs, unread⟩ := p
+    obtain ⟨c, hc⟩ := decodeFields_split ts payload vs unread h
+    left; exact ⟨rfl, vs, unread, c, rfl, hc⟩
+
 /-- a string / name-list / mpint length field larger than the bytes that remain is an error (never an
     over-read, never an allocation of the announced size); exact behaviour of `get_string` -/
 theorem string_length_checked (b : Bytes) :
@@ -207,25 +222,45 @@ theorem der_examples :
 
 /-- **send_loop_progress (partial: needs `1 ≤ max packet size`)** — for EVERY window `≥ 0`, EVERY positive
     maximum packet size (1 and 2³²−1 included) and EVERY send queue, `_flush_send_buf` leaves its loop within
-    (bytes queued + queue entries) iterations, and no DATA packet exceeds the peer's maximum. -/
+    (bytes queued + queue entries) iterations, and no DATA packet exceeds the peer's maximum.  Holds whether or
+    not the tree has the `break` on a non-positive packet size. -/
 theorem send_loop_progress_partial (st : SendSt) (hm : 1 ≤ st.maxpkt) (hw : 0 ≤ st.window) :
     (flushLoop (sendMeasure st.bufs) st).2.2 = true ∧
     (flushLoop (sendMeasure st.bufs) st).2.1.length ≤ sendMeasure st.bufs ∧
     ∀ d ∈ (flushLoop (sendMeasure st.bufs) st).2.1, (d.length : Int) ≤ st.maxpkt :=
   flushLoop_terminates _ st hm hw (Nat.le_refl _)
 
-/-- **the full statement is false of the faithful model (F2)** — with a maximum packet size of 0, any positive
-    window and anything to send, the loop never reaches its exit: after `n` iterations it has emitted `n` empty
-    DATA packets and is still running, for EVERY `n`. -/
-theorem send_loop_zero_pktsize_spins (buf : Bytes) (rest : List Bytes) (w : Int) (hb : buf ≠ []) (hw : 0 < w) (n : Nat) :
-    (flushLoop n { bufs := buf :: rest, window := w, maxpkt := 0 }).2.1.length = n ∧
-    (flushLoop n { bufs := buf :: rest, window := w, maxpkt := 0 }).2.2 = false :=
-  flushLoop_zero_spins buf rest w hb hw n
+/-- **send_loop_progress, decided for the generated loop (F2)** — either the tree's `_flush_send_buf` leaves the
+    loop for every non-positive packet size, and then it terminates within `sendMeasure` iterations for EVERY
+    maximum packet size a peer can advertise (0 and the dropbear-adjusted −1 included) and every window `≥ 0`;
+    or it has no such exit, and then with a maximum packet size of 0, any positive window and anything to send
+    it never reaches its exit: after `n` iterations it has emitted `n` empty DATA packets and is still running,
+    for EVERY `n` (the full statement is false of the faithful model: defect F2). -/
+theorem send_loop_progress :
+    (sendLoopGuarded = true ∧ ∀ st : SendSt, 0 ≤ st.window →
+        (flushLoop (sendMeasure st.bufs) st).2.2 = true ∧
+        (flushLoop (sendMeasure st.bufs) st).2.1.length ≤ sendMeasure st.bufs) ∨
+    (sendLoopGuarded = false ∧ ∀ (buf : Bytes) (rest : List Bytes) (w : Int) (n : Nat), buf ≠ [] → 0 < w →
+        (flushLoop n { bufs := buf :: rest, window := w, maxpkt := 0 }).2.1.length = n ∧
+        (flushLoop n { bufs := buf :: rest, window := w, maxpkt := 0 }).2.2 = false) := by
+  by_cases hs : sendLoopGuarded = true
+  · first
+      | (left
+         have hall : ∀ p : Int, p ≤ 0 → Gen.C10.flushBreaks p = true := by
+           intro p hp; simp [Gen.C10.flushBreaks]; omega
+         exact ⟨hs, fun st hw => flushLoop_terminates_all hall st hw⟩)
+      | exact absurd hs (by decide)
+  · first
+      | (right
+         have hg : Gen.C10.flushBreaks 0 = false := by decide
+         exact ⟨by simpa using hs, fun buf rest w n hb hw => flushLoop_zero_spins hg buf rest w hb hw n⟩)
+      | exact absurd (by decide : sendLoopGuarded = true) hs
 
 /-- **numeric_extremes, channel open** — decided for the *generated* guards: either both open paths reject
     every advertised size that ends at `≤ 0` (then every accepted channel satisfies the hypothesis of
     `send_loop_progress_partial`), or the tree accepts an advertised maximum packet size that is stored as 0
-    (then `send_loop_zero_pktsize_spins` applies: F2).  Which disjunct holds is printed by the driver. -/
+    (then everything depends on the send loop: see `send_loop_progress`).  Which disjunct holds is printed by the
+    driver. -/
 theorem numeric_extremes_open :
     (openSafe = true ∧ ∀ (adv : Nat) (dropbear : Bool) (p : Int),
         (openPktsize adv dropbear = .accept p → 1 ≤ p) ∧ (confirmPktsize adv dropbear = .accept p → 1 ≤ p)) ∨
@@ -233,29 +268,30 @@ theorem numeric_extremes_open :
         (openPktsize adv dropbear = .accept 0 ∨ confirmPktsize adv dropbear = .accept 0)) := by
   by_cases hs : openSafe = true
   · left; exact ⟨hs, fun adv d p => open_safe_positive hs adv d p⟩
-  · right
-    refine ⟨by simpa using hs, ?_⟩
+  · -- which case applies is decided by evaluating the generated guards
     first
-      | exact ⟨0, false, by decide, Or.inl (by decide)⟩
-      | exact ⟨0, false, by decide, Or.inr (by decide)⟩
-      | exact ⟨1, true, by decide, Or.inl (by decide)⟩
-      | exact ⟨1, true, by decide, Or.inr (by decide)⟩
+      | exact absurd (by decide : openSafe = true) hs
+      | exact Or.inr ⟨by simpa using hs, 0, false, by decide, Or.inl (by decide)⟩
+      | exact Or.inr ⟨by simpa using hs, 0, false, by decide, Or.inr (by decide)⟩
+      | exact Or.inr ⟨by simpa using hs, 1, true, by decide, Or.inl (by decide)⟩
+      | exact Or.inr ⟨by simpa using hs, 1, true, by decide, Or.inr (by decide)⟩
 
-/-- **numeric_extremes, windows and lengths** — a DATA packet is delivered iff it fits the receive window
-    (otherwise a clean protocol error); window adjustments never wrap; both for every value incl. 0, 1, 2³²−1. -/
-theorem numeric_extremes_window (datalen window adjust : Nat) :
-    (processData datalen window = .protocolError ↔ window < datalen) ∧
-    (processData datalen window = .deliver ↔ datalen ≤ window) ∧
+/-- **numeric_extremes, windows and lengths** — a DATA packet is delivered iff it fits what is left of the
+    receive window (window minus what is already buffered for a paused reader), otherwise a clean protocol error;
+    window adjustments never wrap; for every value incl. 0, 1, 2³²−1. -/
+theorem numeric_extremes_window (datalen window buffered adjust : Nat) :
+    (processData datalen window buffered = .protocolError ↔ (window : Int) - buffered < datalen) ∧
+    (processData datalen window buffered = .deliver ↔ (datalen : Int) ≤ (window : Int) - buffered) ∧
     windowAdjust window adjust = window + adjust := by
-  have h := processData_spec datalen window
+  have h := processData_spec datalen window buffered
   refine ⟨h, ?_, rfl⟩
   constructor
   · intro hd
-    rcases Nat.lt_or_ge window datalen with hlt | hge
+    by_cases hlt : (window : Int) - buffered < datalen
     · have := h.mpr hlt; rw [hd] at this; cases this
-    · exact hge
+    · omega
   · intro hle
-    cases hp : processData datalen window with
+    cases hp : processData datalen window buffered with
     | deliver => rfl
     | protocolError => have := h.mp hp; omega
 
@@ -264,9 +300,8 @@ theorem numeric_extremes_example :
     (flushLoop 10 { bufs := [[1, 2, 3]], window := 4294967295, maxpkt := 1 }).2.1 = [[1], [2], [3]] ∧
     (flushLoop 10 { bufs := [[1, 2, 3]], window := 1, maxpkt := 4294967295 }).2.1 = [[1]] ∧
     (flushLoop 10 { bufs := [[1, 2, 3]], window := 0, maxpkt := 0 }).2.1 = [] ∧
-    (flushLoop 5 { bufs := [[1, 2, 3]], window := 1, maxpkt := 0 }).2.1 = [[], [], [], [], []] ∧
-    processData 0 0 = .deliver ∧ processData 1 0 = .protocolError ∧
-    processData 4294967295 4294967295 = .deliver := by
+    processData 0 0 0 = .deliver ∧ processData 1 0 0 = .protocolError ∧
+    processData 4294967295 4294967295 0 = .deliver ∧ processData 1 4294967295 4294967295 = .protocolError := by
   decide +kernel
 
 end AsyncsshModel.C10
